@@ -63,7 +63,12 @@ func (s *Store) Get(key string) ([]byte, error) {
 	row := s.db.QueryRow(`SELECT sum FROM refs WHERE name = ?`, key)
 	sum := make([]byte, 16)
 	if err := row.Scan(&sum); err != nil {
-		return nil, ref.ErrKeyNotFound
+		if err == sql.ErrNoRows {
+			return nil, ref.ErrKeyNotFound
+		}
+		// a read that failed (database busy, table locked) says nothing about
+		// whether the ref exists
+		return nil, err
 	}
 	return sum, nil
 }
